@@ -42,6 +42,8 @@ var oddSnippets = []string{
 	// inside generic functions: local and anonymous struct types (and arrays of them) with fields of the
 	// type-parameter type, ranged by value, passed by value, compared (types whose size go/types cannot compute)
 	"func g22[T any](xs []T, x T) int {\n\ttype loc struct {\n\t\tf T\n\t\tn int\n\t}\n\tvar arr [4]loc\n\tvar anon [2]struct{ v T }\n\tn := 0\n\tfor _, v := range arr {\n\t\t_ = v\n\t\tn++\n\t}\n\tfor _, v := range anon {\n\t\t_ = v\n\t\tn++\n\t}\n\tfor _, v := range []loc{{f: x}} {\n\t\t_ = v\n\t}\n\tls := []struct{ a [8]T }{}\n\tfor _, v := range ls {\n\t\t_ = v\n\t}\n\tfor _, v := range xs {\n\t\t_ = v\n\t}\n\treturn n\n}\n\nfunc h22[T any](p struct{ a [16]T }, q [3]struct{ v T }) {}\n\nfunc cmp22[T any](a struct{ v T }, i int64, j int32) bool { return int32(i) < j }\n\nfunc use22() { _ = g22([]int{1}, 2); h22(struct{ a [16]int }{}, [3]struct{ v int }{}); _ = cmp22(struct{ v string }{}, 1, 2) }",
+	// functions and methods named like tests, benchmarks and examples, with every kind of parameter list
+	"type suite23 struct{}\n\nfunc Test23a() {\n\tfor _, x := range [2][300]int{} {\n\t\t_ = x\n\t}\n}\n\nfunc Test23b(p *error) {\n\tfor _, x := range [2][300]int{} {\n\t\t_ = x\n\t}\n}\n\nfunc Test23c(p *int, q *string) {}\n\nfunc Test23d(e error) {}\n\nfunc Test23e(t interface{ Helper() }) {}\n\nfunc Test23f(ps ...*any) {}\n\nfunc Test23g(p **int) (r int) { return }\n\nfunc Test23h(f func(*error)) {}\n\nfunc Test23i(p *struct{ a int }) {}\n\nfunc Test23j(p *[3]int, m map[string]*bool) {\n\tfor _, x := range *p {\n\t\t_ = x\n\t}\n}\n\nfunc Test23k[T any](p *T) {}\n\nfunc (s *suite23) TestMethod() {\n\tfor _, x := range [2][300]int{} {\n\t\t_ = x\n\t}\n}\n\nfunc (suite23) TestValue(p *error) {}\n\nfunc Benchmark23(p *uintptr) {}\n\nfunc Example23() {}\n\nfunc Fuzz23(p *byte) {}\n\nfunc Test() {}\n\nfunc Test_(_ *rune) {}",
 	// imports with aliases, dot and blank
 	"",
 	// struct tags, embedded fields, anonymous structs
